@@ -38,6 +38,8 @@ func runC19(w *World, r *Report) {
 	checkFlagBinding(w, r, "C19/WIRING", map[string]bool{"Username": true, "Password": true, "PassCredentialsAll": true, "RepoURL": true})
 	c19OptionsKept(w, r)
 	c19OriginCompare(w, r)
+	c19DownloaderConfig(w, r)
+	c19NoOwnerOnly(w, r)
 }
 
 func urlFieldLoad(v ssa.Value, field string) (base ssa.Value, ok bool) {
@@ -807,4 +809,146 @@ func isHostnameValue(v ssa.Value) bool {
 		return false
 	})
 	return hit
+}
+
+// c19DownloaderConfig: every ChartDownloader is given the repository configuration and cache: without
+// them it cannot find the repository that owns an absolute chart URL, and scopes the credentials it
+// carries to the chart URL itself.
+func c19DownloaderConfig(w *World, r *Report) {
+	r.Rule("C19/DOWNLOADER-CONFIG", "every ChartDownloader literal in helm sets RepositoryConfig and RepositoryCache (sibling agreement of the three construction sites)", 3)
+	n := 0
+	for _, fn := range w.HelmFuncs() {
+		if strings.HasSuffix(w.FileOf(fn), "_test.go") {
+			continue
+		}
+		for _, b := range fn.Blocks {
+			for _, in := range b.Instrs {
+				al, ok := in.(*ssa.Alloc)
+				if !ok || !isNamedPtr(al.Type(), helmMod+"/pkg/downloader", "ChartDownloader") || al.Referrers() == nil {
+					continue
+				}
+				set := map[string]bool{}
+				isCopy := false
+				for _, rf := range *al.Referrers() {
+					if st, ok := rf.(*ssa.Store); ok && st.Addr == ssa.Value(al) {
+						isCopy = true // filled by copying a whole struct (the literal's temporary): judged there
+					}
+				}
+				if isCopy {
+					continue
+				}
+				for _, rf := range *al.Referrers() {
+					if fa, ok := rf.(*ssa.FieldAddr); ok && fa.Referrers() != nil {
+						for _, rr := range *fa.Referrers() {
+							if st, ok := rr.(*ssa.Store); ok && st.Addr == ssa.Value(fa) {
+								_, _, f := fieldNameOf(fa)
+								set[f] = true
+							}
+						}
+					}
+				}
+				if len(set) < 3 {
+					continue // not a construction site (a zero value, a copy)
+				}
+				n++
+				r.Fn(FuncName(fn))
+				r.Check(set["RepositoryConfig"] && set["RepositoryCache"], "C19/DOWNLOADER-CONFIG", FuncName(fn), w.Pos(al.Pos()), "the downloader knows the configured repositories", "a ChartDownloader is built without RepositoryConfig/RepositoryCache: it cannot find the repository that owns an absolute chart URL and sends the credentials it was given to that URL's own origin")
+			}
+		}
+	}
+	if n == 0 {
+		r.Unk("C19/DOWNLOADER-CONFIG", "no-site", "-", "no ChartDownloader construction site found")
+	}
+}
+
+// c19NoOwnerOnly: the downloader falls back to "no repository owns this URL: scope the options to the
+// URL itself" only when the scan said exactly that (ErrNoOwnerRepo). A scan that failed for another
+// reason has not looked at every repository: the owner — and the credentials that must stay with it —
+// may be one it did not reach.
+func c19NoOwnerOnly(w *World, r *Report) {
+	r.Rule("C19/NO-OWNER-ONLY", "in ResolveChartVersion, after the repository scan, the option WithURL(ref) is appended only on the edge where the scan's error equals ErrNoOwnerRepo", 1)
+	fn := w.Fn("pkg/downloader", "ChartDownloader.ResolveChartVersion")
+	if fn == nil {
+		r.Unk("C19/NO-OWNER-ONLY", "anchor", "-", "ResolveChartVersion not found")
+		return
+	}
+	r.Fn(FuncName(fn))
+	g := FullGraph(fn)
+	var scan ssa.CallInstruction
+	for _, c := range callInstrs(fn) {
+		if f, _ := calleeOf(c.Common()); f != nil && FuncName(f) == "(*pkg/downloader.ChartDownloader).scanReposForURL" {
+			scan = c
+		}
+	}
+	if scan == nil {
+		r.Unk("C19/NO-OWNER-ONLY", "no-scan", w.Pos(fn.Pos()), "ResolveChartVersion does not scan the repositories")
+		return
+	}
+	e := errResult(scan)
+	var isNoOwner []Edge
+	if e != nil {
+		for a := range forwardAliases(e) {
+			if a.Referrers() == nil {
+				continue
+			}
+			for _, rf := range *a.Referrers() {
+				bo, ok := rf.(*ssa.BinOp)
+				if !ok || (bo.Op != token.EQL && bo.Op != token.NEQ) {
+					continue
+				}
+				other := bo.Y
+				if other == a {
+					other = bo.X
+				}
+				if ld, ok := other.(*ssa.UnOp); ok {
+					if gl, ok := ld.X.(*ssa.Global); ok && gl.Name() == "ErrNoOwnerRepo" {
+						for _, ce := range condEdges(bo) {
+							if ce.truth == (bo.Op == token.EQL) {
+								isNoOwner = append(isNoOwner, ce.Edge)
+							}
+						}
+					}
+				}
+				if c2, ok := rf.(*ssa.Call); ok {
+					_ = c2
+				}
+			}
+			// errors.Is(err, ErrNoOwnerRepo)
+			for _, rf := range *a.Referrers() {
+				c2, ok := rf.(*ssa.Call)
+				if !ok {
+					continue
+				}
+				if f, _ := calleeOf(c2.Common()); f != nil && fnPkgPath(f) == "errors" && f.Name() == "Is" && len(c2.Call.Args) == 2 {
+					if ld, ok := c2.Call.Args[1].(*ssa.UnOp); ok {
+						if gl, ok := ld.X.(*ssa.Global); ok && gl.Name() == "ErrNoOwnerRepo" {
+							for _, ce := range condEdges(c2) {
+								if ce.truth {
+									isNoOwner = append(isNoOwner, ce.Edge)
+								}
+							}
+						}
+					}
+				}
+			}
+		}
+	}
+	okE, _ := nilTestEdges(e)
+	n := 0
+	for _, c := range callInstrs(fn) {
+		f, _ := calleeOf(c.Common())
+		if f == nil || FuncName(f) != "pkg/getter.WithURL" {
+			continue
+		}
+		// only the appends reachable from the scan without passing its error's nil-edge matter
+		if ex, _ := g.PathExists(posOf(scan), posOf(c), Avoid{}.withEdges(okE...)); !ex {
+			continue
+		}
+		n++
+		viol, _ := g.PathExists(posOf(scan), posOf(c), Avoid{}.withEdges(okE...).withEdges(isNoOwner...))
+		r.Check(!viol && len(isNoOwner) > 0, "C19/NO-OWNER-ONLY", siteKey(Site{fn, c, posOf(c)}), w.InstrPos(c), "the options are scoped to the chart URL only where no configured repository owns it", "after a failed repository scan the options are scoped to the chart URL although the error is not ErrNoOwnerRepo: the scan stopped before it reached the owning repository, and the credentials the caller carries for that repository go to the chart URL's own origin")
+	}
+	if n == 0 {
+		r.Unk("C19/NO-OWNER-ONLY", "no-site", w.Pos(fn.Pos()), "no WithURL on the error side of the repository scan")
+	}
 }
